@@ -87,6 +87,10 @@ func generate(run func(string, bool) string, rng *xvlib.Rng, full bool, out *xvl
 			run(fmt.Sprintf("cmx|%s|a1=%s a0=%s|%s|%d", r, e, a0rules[i%len(a0rules)], methAlphabet, k), true)
 		}
 	}
+	// 1c. the weight / threshold universe: huge, tiny, negative, zero and equal-at-the-boundary values in every unit
+	nWide := generateWide(run, rng, full)
+	// 1d. many goroutines evaluating different rules / signer lists at once, against the sequential answers
+	nConc := generateConc(run, rng, full)
 	// 2. random larger cases: up to 4 accounts x 5 keys, depth <= 4, negative weights, up to 7 URIs, shuffled
 	nRand := 20000
 	if full {
@@ -109,8 +113,8 @@ func generate(run func(string, bool) string, rng *xvlib.Rng, full bool, out *xvl
 	// order, the kernel's SetAccountAcl / NewAccount / SetMethodAcl, a contract call), with read faults
 	nCfg, nVtx := generateVtx(run, rng, full, out)
 	out.Stats.Exhaustive = full
-	out.Stats.Rule = fmt.Sprintf("exhaustive part: account a0 (and a method) with every rule out of %d (threshold: weights {0,1/4,1/2,1} on k0,k1,k2 and on the nested account a1, thresholds {1/4,1/2,1,3/2}; key sets: every family of <= 2 subsets of the 4 members incl. the empty set) x %d rules of the nested account x ALL multisets of size <= k over a %d-URI alphabet (direct keys, keys below the nested account, other account's signer, keys below a key, self nesting, account as last component); thorough: k=4 for every pair; quick: the weight of k2 is restricted to {0,1/2} and pairs of key sets leave out k2, k=2 for every pair, k=4 for %d and k=3 for %d seeded pairs. Plus %d random cases (<=4 accounts, <=5 keys, depth <=4, weights in -1/4..1, <=7 URIs) and %d random verifyRWSetPermission cases; %d lookup-fault lines on the small universe (the nested account, the root, a key or the method rule answers an error; random cases carry such entries with probability 1/8); %d end-to-end State.VerifyTx cases on %d chains (real node: confirmed rules, pending rule changes / owner entries in the pool, signed transactions with <= 4 token inputs of keys and accounts in every order, account initiators, signatures that do not verify, SetAccountAcl / NewAccount / SetMethodAcl / a contract call pre-executed like a client does; one third with a read fault: I/O error on the rule's version pointer, evicted pending writer, error of four texts from the snapshot reader). Each multiset is one case; cases are distinct by construction (rule pair x multiset); non-trivial = at least one URI.",
-		len(roots), len(nested), len(strings.Fields(accAlphabet)), pairsK4, pairsK3, nRand, nRW, nFault, nVtx, nCfg)
+	out.Stats.Rule = fmt.Sprintf("exhaustive part: account a0 (and a method) with every rule out of %d (threshold: weights {0,1/4,1/2,1} on k0,k1,k2 and on the nested account a1, thresholds {1/4,1/2,1,3/2}; key sets: every family of <= 2 subsets of the 4 members incl. the empty set) x %d rules of the nested account x ALL multisets of size <= k over a %d-URI alphabet (direct keys, keys below the nested account, other account's signer, keys below a key, self nesting, account as last component); thorough: k=4 for every pair; quick: the weight of k2 is restricted to {0,1/2} and pairs of key sets leave out k2, k=2 for every pair, k=4 for %d and k=3 for %d seeded pairs. Plus %d random cases (<=4 accounts, <=5 keys, depth <=4, weights in -1/4..1, <=7 URIs) and %d random verifyRWSetPermission cases; %d lookup-fault lines on the small universe (the nested account, the root, a key or the method rule answers an error; random cases carry such entries with probability 1/8); %d end-to-end State.VerifyTx cases on %d chains (real node: confirmed rules, pending rule changes / owner entries in the pool, signed transactions with <= 4 token inputs of keys and accounts in every order, account initiators, signatures that do not verify, SetAccountAcl / NewAccount / SetMethodAcl / a contract call pre-executed like a client does; one third with a read fault: I/O error on the rule's version pointer, evicted pending writer, error of four texts from the snapshot reader; half of the random chains and four fixed ones carry a side-branch block 2B competing with the tip 2A that holds pending transactions (~) and transactions this node never admitted (^)). Each multiset is one case; cases are distinct by construction (rule pair x multiset); non-trivial = at least one URI. Weight universe: %d idx / cmx lines with threshold rules in units 2^-e, e in {2,0,20,30,52,100,900,-10,-43,-44,-100,-900} and random e in -900..900, magnitudes 1 .. 2^51 around the float32 / int32 / int64-fixed-point / float64-mantissa limits, 11 shapes (at the boundary, one unit short / over, frozen, master key, negative and zero thresholds, veto weights) + random rules, |theta| + sum|w| < 2^53 so that every float64 sum is exact. Concurrency: %d conc lines (16 goroutines x 16 cases each, every concurrent answer = the sequential answer).",
+		len(roots), len(nested), len(strings.Fields(accAlphabet)), pairsK4, pairsK3, nRand, nRW, nFault, nVtx, nCfg, nWide, nConc)
 }
 
 func randName(rng *xvlib.Rng, acct bool) string {
@@ -218,4 +222,128 @@ func randomCase(rng *xvlib.Rng) string {
 		r = fmt.Sprintf("E%d", rng.Intn(4))
 	}
 	return fmt.Sprintf("cmp|%s|%s|%s", r, randEnv(rng), randURIs(rng, ""))
+}
+
+// ---------------------------------------------------------------- the weight / threshold universe
+
+// wideExps: the unit 2^-e of a rule.  2 = quarters (the small universe), 0 = integers, 20 / 30 = about 1e-6 / 1e-9,
+// 52 / 100 / 900 = tiny, negative = huge units (2^43 = 8.8e12, the last power of two below 2^63 / 1e6).
+var wideExps = []int{2, 0, 20, 30, 52, 100, 900, -10, -43, -44, -100, -900}
+
+// wideBases: magnitudes in the unit: around the float32 mantissa, the int32 / int64 / fixed-point ranges, the float64 mantissa
+var wideBases = []int{1, 3, 1 << 20, 1<<24 + 1, 1 << 31, 1<<32 + 1, 1 << 40, 1<<43 + 1, 1 << 45, 1 << 50, 1<<51 - 1}
+
+// wideShapes: theta and the weights of k0, k1, k2, a1 as functions of the base b
+var wideShapes = []func(b int) (int, [4]int){
+	func(b int) (int, [4]int) { return b, [4]int{b, 0, 0, 0} },          // exactly at the boundary
+	func(b int) (int, [4]int) { return b, [4]int{b - 1, 1, 0, 0} },      // reached only by both, by one unit
+	func(b int) (int, [4]int) { return b + 1, [4]int{b, 0, 0, 0} },      // missed by one unit
+	func(b int) (int, [4]int) { return b, [4]int{1, 1, 1, 0} },          // frozen: out of reach for b > 3
+	func(b int) (int, [4]int) { return 4, [4]int{b, 2, 2, 1} },          // a master key
+	func(b int) (int, [4]int) { return -b, [4]int{1, 0, 0, 0} },         // negative threshold: open
+	func(b int) (int, [4]int) { return 1, [4]int{b, -b, 1, 0} },         // a veto weight
+	func(b int) (int, [4]int) { return 0, [4]int{-b, b, 0, 0} },         // zero threshold
+	func(b int) (int, [4]int) { return b, [4]int{b / 2, b - b/2, 0, b} }, // halves, or the nested account alone
+	func(b int) (int, [4]int) { return 2 * b, [4]int{b, b, -1, 0} },     // the sum reaches it, one unit less does not
+	func(b int) (int, [4]int) { return b, [4]int{b - 1, 0, 0, 0} },      // one unit short for ever
+}
+
+const wideAccAlphabet = "a0/k0 a0/k1 a0/k2 a0/a1/k0 a1/k0 a0/k0/k1"
+const wideMethAlphabet = "k0 k1 k2 a1/k0 a0/k0 k0/k1"
+
+func wideRule(e, theta int, ws [4]int) (string, bool) {
+	tot := abs(theta)
+	for _, w := range ws {
+		tot += abs(w)
+	}
+	if tot >= 1<<53 {
+		return "", false
+	}
+	ms := fmt.Sprintf("k0=%d,k1=%d,k2=%d,a1=%d", ws[0], ws[1], ws[2], ws[3])
+	if e == 2 {
+		return fmt.Sprintf("T:%d:%s", theta, ms), true
+	}
+	return fmt.Sprintf("Q%d:%d:%s", e, theta, ms), true
+}
+
+func abs(x int) int {
+	if x < 0 {
+		return -x
+	}
+	return x
+}
+
+func generateWide(run func(string, bool) string, rng *xvlib.Rng, full bool) int {
+	n := 0
+	nestedW := []string{"N", "T:2:k0=2", "Q-60:1:k0=1", "Q70:5:k0=5"}
+	for _, e := range wideExps {
+		for _, b := range wideBases {
+			for si, sh := range wideShapes {
+				theta, ws := sh(b)
+				r, ok := wideRule(e, theta, ws)
+				if !ok {
+					continue
+				}
+				k := 3
+				if full {
+					k = 4
+				}
+				nr := nestedW[(si+n)%len(nestedW)]
+				run(fmt.Sprintf("idx|a0|a0=%s a1=%s|%s|%d", r, nr, wideAccAlphabet, k), true)
+				run(fmt.Sprintf("cmx|%s|a1=%s a0=N|%s|%d", r, nr, wideMethAlphabet, k), true)
+				n += 2
+			}
+		}
+	}
+	// random rules over the whole range: unit, magnitudes and signs drawn independently
+	nr := 1500
+	if full {
+		nr = 30000
+	}
+	for i := 0; i < nr; i++ {
+		e := wideExps[rng.Intn(len(wideExps))]
+		if rng.Chance(1, 3) {
+			e = rng.Intn(1801) - 900
+		}
+		val := func() int {
+			v := 0
+			switch rng.Intn(4) {
+			case 0:
+				v = rng.Intn(5)
+			case 1:
+				v = wideBases[rng.Intn(len(wideBases))] + rng.Intn(3) - 1
+			default:
+				v = rng.Intn(1 << uint(1+rng.Intn(50)))
+			}
+			if rng.Chance(1, 5) {
+				v = -v
+			}
+			return v
+		}
+		ws := [4]int{val(), val(), val(), val()}
+		theta := val()
+		switch rng.Intn(4) {
+		case 0: // a threshold that some subset of the weights meets exactly, or misses by one unit
+			theta = 0
+			for j := range ws {
+				if rng.Bool() {
+					theta += ws[j]
+				}
+			}
+			theta += rng.Intn(3) - 1
+		case 1:
+			theta = ws[0] + ws[1]
+		}
+		r, ok := wideRule(e, theta, ws)
+		if !ok {
+			continue
+		}
+		if rng.Bool() {
+			run(fmt.Sprintf("idx|a0|a0=%s a1=%s|%s|3", r, nestedW[rng.Intn(len(nestedW))], wideAccAlphabet), true)
+		} else {
+			run(fmt.Sprintf("cmx|%s|a1=%s a0=N|%s|3", r, nestedW[rng.Intn(len(nestedW))], wideMethAlphabet), true)
+		}
+		n++
+	}
+	return n
 }
